@@ -1,9 +1,9 @@
 """C05 checkpoint balance (structural clauses)"""
-from ..rules import holds
+from ..rules import holds, delivery
 from .common import hold_classes, declare
 
 RULES = ['LINEAR-HOLD', 'NO-DOUBLE-REL', 'RETAIN-ONCE', 'EMIT-BALANCE', 'REMOVE-RELEASES', 'REL-SHAPE',
-         'EMITTED-STILL-HELD']
+         'EMITTED-STILL-HELD', 'SWAP-ATOMIC']
 FLOORS = {'LINEAR-HOLD': 13, 'RETAIN-ONCE': 13, 'REMOVE-RELEASES': 18, 'REL-SHAPE': 50, 'EMIT-BALANCE': 1,
           'NO-DOUBLE-REL': 15, 'EMITTED-STILL-HELD': 1}
 
@@ -18,10 +18,11 @@ def run(ctx, R):
         '_emit/_retain_refs/_release_refs is a flat list (shape lattice). Necessary conditions of C05; the run-time '
         'equality count == live holders is not decided.')
     R.not_decided = ['the numeric equality "count = number of live holders" at run time']
-    declare(R, holds.RULES, RULES, FLOORS)
+    declare(R, {**holds.RULES, **delivery.RULES}, RULES, FLOORS)
     for c in hold_classes(ctx):
         holds.check_class(ctx, R, c, rules=set(RULES))
         holds.check_in_flight(ctx, R, c)
     holds.check_emit(ctx, R)
+    delivery.check_swap_atomic(ctx, R, [c for c in hold_classes(ctx) if c.module.name == 'streamz.core'])
     for k in [k for k in R.obs if k[0] not in RULES]:
         del R.obs[k]
